@@ -174,6 +174,11 @@ class HplExpression(HplAstObject):
             obj = stack.pop()
             if obj.is_accessor:
                 obj.type_check_references(this_msg, variables)
+                # the chain itself has been checked; references inside its indices have not
+                while obj.is_accessor:
+                    if obj.is_indexed:
+                        stack.append(obj.index)
+                    obj = obj.object
             else:
                 stack.extend(reversed(obj.children()))
 
